@@ -31,6 +31,10 @@ for p in props:
     out.append(f"\n**{p}** — clean tree: " + (", ".join("exit %s" % r.get("rc") for r in clean) or "n/a"))
     out.append("\n| change | source | exit | caught by | replay |\n|---|---|---|---|---|")
     for r in sorted(rows, key=lambda r: (r["kind"], r["name"])):
+        if r["kind"] == "revert" and r.get("rc") is None and "revert failed" in r.get("error", ""):
+            # a later fix: commit rewrote the same lines, so `git revert` of the earlier one conflicts; its re-based revert is kept as a mutant
+            out.append(f"| {r['name']} ({r.get('what','')[:60]}) | revert of fix: | n/a | superseded | a later fix rewrote the same lines; the re-based revert is among the builder mutants of {p} |")
+            continue
         by, what = how(r) if r.get("rc") == 1 else ("MISSED" if r.get("rc") == 0 else "error", r.get("error", ""))
         src = {"mutant": "builder mutant", "seeded": "independent seed", "revert": "revert of fix:"}[r["kind"]]
         name = r["name"] + (f" ({r.get('what','')[:60]})" if r["kind"] == "revert" else "")
